@@ -91,7 +91,18 @@ class Ctx:
                     ok = False
                     self.broken.append(Broken('translator', f'Gen/{g}.v', f'{type(E).__name__}: {E}'))
                     self.log(f'TIE BROKEN (translator) Gen/{g}.v: {type(E).__name__}: {E}')
-                    continue
+                    # fall back to the model of the COMMITTED tree (git HEAD of /repo) so that the executable model
+                    # stays available for the correspondence and the search; never keep a stale file from another tree
+                    try:
+                        tmp = os.path.join(self.work, 'head_tree')
+                        if not os.path.exists(tmp):
+                            os.makedirs(tmp)
+                            sh(f'git -C {REPO} archive HEAD starsim | tar -x -C {tmp}', timeout=120)
+                        text, _ = targets.generate(g, tmp)
+                        self.log(f'translator: Gen/{g}.v falls back to the committed tree (HEAD)')
+                    except Exception as E2:
+                        self.log(f'translator: fallback for Gen/{g}.v failed too: {E2}')
+                        continue
                 path = os.path.join(TH, 'Gen', g + '.v')
                 old = open(path).read() if os.path.exists(path) else None
                 if old != text:
@@ -137,6 +148,10 @@ class Ctx:
             rc, out = sh(f'timeout {COQ_TIMEOUT} {cmd} 2>&1', cwd=COQ, timeout=COQ_TIMEOUT + 30)
         open(os.path.join(self.work, f'make_{props}.log'), 'w').write(out)
         if rc != 0:
+            # keep the executable model usable for the correspondence / search even though a proof broke
+            with BuildLock():
+                mods = [f'theories/{d}/{f[:-2]}.vo' for d in ('Gen', 'Model') for f in sorted(os.listdir(os.path.join(TH, d))) if f.endswith('.v')]
+                sh(f'timeout {COQ_TIMEOUT} make -k -j16 ' + ' '.join(mods) + ' 2>&1', cwd=COQ, timeout=COQ_TIMEOUT + 30)
             m = re.search(r'File "([^"]+)", line (\d+)', out)
             where = f'{m.group(1)}:{m.group(2)}' if m else 'unknown location'
             tail = '\n'.join(out.strip().splitlines()[-25:])
